@@ -40,19 +40,35 @@ def gen_scenario(rng, nops):
         key = tuple(sorted([p1, p2]))
         if key not in conn: conn[key] = rng.choice(IDPOOL)
         equivs.append('(e %s %d %s %d %s %s)' % (p1, k1, p2, k2, E.H(rng.choice(IDPOOL)), E.H(conn[key])))
+    # connections made of several variable pairs between the same two components
+    comps = sorted({p for p, _ in vs})
+    if len(comps) >= 2 and rng.random() < 0.6:
+        pa, pb = rng.sample(comps, 2)
+        va = [v for v in vs if v[0] == pa and v not in used]; vb = [v for v in vs if v[0] == pb and v not in used]
+        key = tuple(sorted([pa, pb]))
+        for x, y in list(zip(va, vb))[:3]:
+            if key not in conn: conn[key] = rng.choice(IDPOOL)
+            used.add(x); used.add(y)
+            equivs.append('(e %s %d %s %d %s %s)' % (x[0], x[1], y[0], y[1], E.H(rng.choice(IDPOOL)), E.H(conn[key])))
     ops = ['(setmodel)'] if rng.random() < 0.9 else []
     for _ in range(nops):
         r = rng.random()
         if r < 0.22: ops.append('(edit %d %s)' % (rng.randrange(0, 40), E.H(rng.choice(IDPOOL + ['b4da59', 'zz']))))
         elif r < 0.40: ops.append('(assignall)')
         elif r < 0.52: ops.append('(assignids %d)' % rng.choice(list(KINDS.values())))
-        elif r < 0.64: ops.append('(assignid %d)' % rng.randrange(0, 40))
+        elif r < 0.50: ops.append('(assignid %d)' % rng.randrange(0, 40))
+        elif r < 0.60: ops.append('(%s %d %d)' % (rng.choice(['assignidk', 'assignid2k', 'assignid2k']), rng.choice([2, 2, 5, 5, 12, 4, 1, 3, 9, 10, 14, 0]), rng.randrange(0, 6)))
+        elif r < 0.64: ops.append('(editk %d %d %s)' % (rng.choice([2, 5, 12, 4, 1, 3]), rng.randrange(0, 6), E.H(rng.choice(IDPOOL + ['b4da59', 'zz']))))
         elif r < 0.70: ops.append('(clearall)')
         elif r < 0.80: ops.append('(item %s)' % E.H(rng.choice(AUTO + ['id1', 'zz'])))
         elif r < 0.87: ops.append('(count %s)' % E.H(rng.choice(AUTO + ['id1', 'x'])))
         elif r < 0.92: ops.append('(ids)')
         elif r < 0.96: ops.append('(dups)')
         else: ops.append('(setmodel)')
+    if rng.random() < 0.35:
+        # an item re-identified through one of its other handles, then looked at and assigned around
+        k = rng.choice([2, 2, 5, 12, 4])
+        ops += ['(%s %d %d)' % (rng.choice(['assignid2k', 'assignidk']), k, rng.randrange(0, 4)), '(ids)', '(dups)', '(count %s)' % E.H(rng.choice(IDPOOL[4:])), '(assignall)']
     return '(annot %s (equivs %s) (ops %s))' % (E.sexp_model(m), ' '.join(equivs), ' '.join(ops))
 
 
@@ -92,7 +108,14 @@ def oracle(shape_line, ops, results):
             for i, (o, n) in enumerate(zip(cur, new)):
                 if o != '#' and o != n: bad.append('%s changed the existing identifier of slot %d' % (op, i))
                 if o == '#' and n != '#' and (new.count(n) != 1 or n in cur): bad.append('%s assigned %s to slot %d although it is carried by another item' % (op, n, i))
-        if head[0] == 'assignid' and has_model and int(head[1]) < len(cur):
+        if head[0] in ('assignidk', 'assignid2k') and has_model:
+            idx = [i for i, k in enumerate(kinds) if k == int(head[1])]
+            if idx:
+                i = idx[int(head[2]) % len(idx)]
+                if new[i] == '#' or new[i] in cur or new.count(new[i]) != 1: bad.append('%s gave slot %d the identifier %s which is not fresh' % (op, i, new[i]))
+                for j, (o, n) in enumerate(zip(cur, new)):
+                    if j != i and o != n: bad.append('%s changed slot %d' % (op, j))
+        if head[0] in ('assignid', 'assignid2') and has_model and int(head[1]) < len(cur):
             i = int(head[1])
             if new[i] == '#' or new[i] in cur or new.count(new[i]) != 1: bad.append('%s gave slot %d the identifier %s which is not fresh' % (op, i, new[i]))
             for j, (o, n) in enumerate(zip(cur, new)):
@@ -140,6 +163,9 @@ def run(chk, replay=None):
         # the stored witness of the repaired defect: edit after setModel, then assignAllIds
         m = {'id': '', 'name': 'm', 'enc': '', 'units': [], 'comps': [{'id': '', 'name': 'c', 'enc': '', 'math': '', 'imp': {'src': None, 'ref': ''}, 'vars': [], 'resets': [], 'kids': []}]}
         lines.insert(0, '(annot %s (equivs ) (ops (setmodel) (edit 1 %s) (assignall) (item %s)))' % (E.sexp_model(m), E.H('b4da55'), E.H('b4da55')))
+        cp = os.path.join(ROOT, 'corpus', 'C13.txt')
+        if os.path.exists(cp):
+            lines = [l.strip() for l in open(cp) if l.strip()] + lines
     _, impl, e1 = run_lines_parallel(hx, [], lines)
     mlines, opsl = [], []
     for l, x in zip(lines, impl):
